@@ -56,6 +56,7 @@ class Block:
         self.anchors = []    # (where, anchor, occurrence, [lines])
         self.rewrites = []   # (rule, old, new, count)
         self.nested = {}     # name -> Block
+        self.attrs = []      # attributes put in front of the fn (and of its vacuity clone)
         self.opts = {}
 
 
@@ -98,7 +99,9 @@ def parse_fn_block(lines, i, end_marker='end'):
             if body == end_marker:
                 return blk, i + 1
             words = body.split()
-            if words[0] == 'spec':
+            if words[0] == 'attr':
+                blk.attrs.append(body[len('attr'):].strip())
+            elif words[0] == 'spec':
                 cur = blk.spec
             elif words[0] == 'loop':
                 n = int(words[1])
@@ -217,6 +220,9 @@ def render_item(sf, item, opts, counts):
             kept.append('Structural')
         return '#[derive(%s)]' % ', '.join(kept) if kept else ''
     text = re.sub(r'#\[derive\(([^)]*)\)\]', derive_sub, text)
+    if opts.get('external'):
+        # the item is compiled as it is but left outside verification (listed by the assumption scan)
+        return '#[verifier::external]\n' + text.strip() + '\n'
     if item.kind in ('struct', 'union'):
         toks = lex(text)
         s = sig(toks)
@@ -867,7 +873,8 @@ def annotate_fn(sf, item, blk, counts, meta, mode, qual_name, extra_ensures=None
         body = body.replace('fn %s() {}' % key, ntext)
 
     meta.append(fmeta)
-    return sig_text.rstrip() + '\n' + spec_text + ('\n' if spec_text else '') + body + '\n'
+    attrs = ''.join(a + '\n' for a in blk.attrs)
+    return attrs + sig_text.rstrip() + '\n' + spec_text + ('\n' if spec_text else '') + body + '\n'
 
 
 class Assembled:
@@ -1051,7 +1058,7 @@ def assemble(unit, mode='verify', vacuity=False, seen=None, top=True, only_props
     out += deferred
     body = '\n'.join(out)
     if top:
-        hdr = '#![allow(unused_imports, unused_variables, unused_mut, dead_code, unused_assignments, unused_parens, non_snake_case, unreachable_code)]\nuse vstd::prelude::*;\nuse vstd::std_specs::iter::IteratorSpec;\nuse std::cmp::Ordering;\nuse std::collections::HashMap;\nuse std::hash::Hash;\nverus! {\n'
+        hdr = '#![allow(unused_imports, unused_variables, unused_mut, dead_code, unused_assignments, unused_parens, non_snake_case, unreachable_code)]\nuse vstd::prelude::*;\nuse vstd::std_specs::iter::IteratorSpec;\nuse std::cmp::Ordering;\nuse std::collections::{HashMap, HashSet, VecDeque};\nuse std::hash::Hash;\nverus! {\n'
         ftr = '\n'
         if vacuity:
             ftr += 'proof fn vx_canary() ensures false {}\n'
